@@ -29,6 +29,11 @@ type visits map[*ast.FuncType][]bool
 
 func (v visits) visited(t *ast.FuncType, at int) bool {
 	if n, ok := v[t]; ok {
+		if at < len(n) && !n[at] {
+			// first visit of this result position: remember it, or recursion through it never ends
+			n[at] = true
+			return false
+		}
 		return n[at]
 	}
 
